@@ -49,8 +49,8 @@ def validate_structure(store: StoreLike) -> None:
             f"and {node_ids.dtype}"
         )
 
-    # Metadata based validation
-    if metadata.axes is not None:
+    # Metadata based validation (an empty list of axes asks for nothing)
+    if metadata.axes:
         _validate_axes_structure(graph_group, metadata)
 
 
